@@ -318,6 +318,9 @@ struct LifeCase {
     lost_at_drop: usize,
     /// a use-after-free was detected: stop calling into a10 for this case
     poisoned: bool,
+    /// Wakers of polls that returned Pending because the submission queue was full and that
+    /// have not been invoked since (C03, second sentence).
+    blocked_wakers: Vec<u32>,
     /// outputs recorded by a `race`, replayed by the next ops: (op line, output lines)
     raced: Vec<(String, Vec<String>)>,
     /// a direct descriptor (made by `to_direct_descriptor` before the script starts)
@@ -368,6 +371,16 @@ impl LifeCase {
         simk::drain_events();
         util::drain_wakes();
         track::drain_frees();
+        // Kernel contract KC1 (every published submission is consumed by the next enter, also after
+        // one of them is rejected) holds only for rings created with IORING_SETUP_SUBMIT_ALL; the
+        // model and the simulated kernel presuppose it.
+        let mut oracle: Vec<(String, String, String)> = Vec::new();
+        let kflags = simk::with_ring(rfd, |r, _| r.flags);
+        if kflags & simk::SETUP_SUBMIT_ALL == 0 {
+            for p in ["C06", "C12"] {
+                oracle.push((p.into(), format!("{p}/kernel-contract/submit-all-not-requested"), format!("the ring was set up without IORING_SETUP_SUBMIT_ALL (flags {kflags:#x}): a rejected submission stops the batch, so the flush at Ring drop and the cancel requests of dropped operations can stay unsubmitted while SYNC_CANCEL runs; the correspondence (KC1) no longer covers this code")));
+            }
+        }
         LifeCase {
             ring: Some(ring),
             sq: Some(sq),
@@ -379,11 +392,12 @@ impl LifeCase {
             steps_left: get("steps"),
             max_ops: 5,
             sq_len,
-            oracle: Vec::new(),
+            oracle,
             feats: Vec::new(),
             ring_dropped: false,
             lost_at_drop: 0,
             poisoned: false,
+            blocked_wakers: Vec::new(),
             raced: Vec::new(),
             dfd,
             other: None,
@@ -517,6 +531,7 @@ impl LifeCase {
                 }
                 KEv::FreedState { seq, user_data } => {
                     self.fail("C01", "C01/state-freed-before-final-cqe", format!("operation state {user_data:#x} (submission #{seq}) freed before its final completion"));
+                    self.fail("C02", "C02/completion-without-owner", format!("operation state {user_data:#x} (submission #{seq}) was freed although the kernel still owes it a completion: that completion will be delivered to whatever is allocated there next"));
                 }
                 KEv::TornEntry { index } => {
                     self.fail("C04", "C04/torn-entry", format!("kernel consumed an unwritten submission at slot {index}"));
@@ -524,6 +539,29 @@ impl LifeCase {
                 _ => {}
             }
         }
+    }
+
+    /// Does operation `i` have a submission queued (unconsumed), in flight, or completed but not yet processed?
+    fn has_submission(&self, i: usize) -> bool {
+        let Some(addr) = self.ops[i].state_addr else { return false };
+        if self.ops[i].state_block.is_none() {
+            return false;
+        }
+        simk::with_ring(self.rfd, |r, _| {
+            let (mut h, t) = (r.sq_head(), r.sq_tail());
+            while h != t {
+                let ud = r.sqe_at(h).user_data;
+                if ud > 3 && (ud & !1) as usize == addr {
+                    return true;
+                }
+                h = h.wrapping_add(1);
+            }
+            if r.inflight.iter().any(|x| x.sqe.user_data > 3 && (x.sqe.user_data & !1) as usize == addr) {
+                return true;
+            }
+            // a completion of an earlier submission that a10 has not processed yet
+            r.cq_pending().iter().chain(r.overflow.iter().map(|(_, c)| c)).any(|c| c.user_data > 3 && (c.user_data & !1) as usize == addr)
+        })
     }
 
     /// C01/C06: every completion a10 is about to process must belong to a
@@ -547,6 +585,7 @@ impl LifeCase {
             if owner.is_none() {
                 ok = false;
                 self.fail("C01", "C01/state-freed-before-final-cqe", format!("a completion for operation state {addr:#x} is pending, but that state has already been freed"));
+                self.fail("C02", "C02/completion-without-owner", format!("a completion for operation state {addr:#x} is pending, but that state has already been freed: whatever is allocated there next receives a result the kernel never produced for it"));
             }
         }
         ok
@@ -902,6 +941,12 @@ impl Case for LifeCase {
                     }
                     Ok(None) => {
                         out.push("pending".into());
+                        // Pending without a submission of its own anywhere: the queue was full and
+                        // the waker went on the blocked list.
+                        let new_tail = simk::with_ring(self.rfd, |r, _| r.sq_tail());
+                        if new_tail == old_tail && self.ring.is_some() && !self.has_submission(i) {
+                            self.blocked_wakers.push(w);
+                        }
                         let o = &mut self.ops[i];
                         if o.last_pending != Some(w) || o.woken_since {
                             o.woken_since = false;
@@ -1093,6 +1138,17 @@ impl Case for LifeCase {
                 }
                 let wakes = util::drain_wakes();
                 self.after_ring_poll(&wakes);
+                // C03: a poll that entered the kernel wakes futures waiting for a submission slot
+                // when room is available afterwards.
+                let had_blocked = !self.blocked_wakers.is_empty();
+                self.blocked_wakers.retain(|w| !wakes.contains(w));
+                if entered.is_some() && had_blocked && r.as_ref().is_ok_and(|x| x.is_ok()) {
+                    let room = simk::with_ring(self.rfd, |r, _| r.sq_entries.saturating_sub(r.sq_tail().wrapping_sub(r.sq_head())));
+                    let woken = wakes.len();
+                    if room > 0 && !self.blocked_wakers.is_empty() && woken == 0 {
+                        self.fail("C03", "C03/blocked-not-woken-by-poll", format!("Ring::poll entered the kernel and {room} submission slots are free afterwards, but none of the {} futures waiting for a slot (wakers {:?}) was woken", self.blocked_wakers.len(), self.blocked_wakers));
+                    }
+                }
                 let frees = self.collect_frees();
                 out.push(format!("wakes {} frees {}", list(&wakes), list(&frees)));
                 if r.is_err() {
